@@ -99,7 +99,7 @@ def run(ctx):
                     f.write(text)
                 try:
                     back = list(read_xml(path))
-                    got = 'ok ' + ' || '.join(T.enc_read(r.tree, r.tokens) for r in back)
+                    got = 'ok ' + ' || '.join(T.enc_read(r.tree, r.tokens)[3:] for r in back)
                 except Exception as e:
                     back = None
                     got = 'err ' + wire.err_name(e)
@@ -155,7 +155,7 @@ def run(ctx):
                 dlang.set_global_language_to('ja')
                 try:
                     back = list(read_jigg_xml(path))
-                    got = 'ok ' + ' || '.join(T.enc_read(r.tree, r.tokens) for r in back)
+                    got = 'ok ' + ' || '.join(T.enc_read(r.tree, r.tokens)[3:] for r in back)
                 except Exception as e:
                     back = None
                     got = 'err ' + wire.err_name(e)
